@@ -13,8 +13,10 @@ Tie to the source (this module):
  * footprints: a deep canonical fingerprint of the argument before / after every read-only
    entry point (once, twice, seeded random orders); observed traces are also passed to the
    Coq trace checker `C20.trace_ok` (every store digest equals the initial one, equal
-   operations give equal result digests), whose soundness/completeness w.r.t. the effect
-   model is proved;
+   CALLS = (entry point, argument kind) give equal result digests), whose soundness /
+   completeness w.r.t. the effect model is proved; the footprint observed per (entry point,
+   argument kind) goes through `C20.table_empty`; transpose on every argument kind is
+   compared with the copy-then-modify heap model (`C20.cow_ok`);
  * negative side: the documented in-place operations do change the fingerprint (this is
    also the sensitivity self-test of the fingerprint).
 """
@@ -359,7 +361,7 @@ def gen_part_spec(rng, pid="P0", rich=True, n_meas=None):
             "keysig": None, "clefs": [], "dirs": [], "measures": rng.random() < 0.85, "pickup": False,
             "ids": rng.choice(["all", "all", "none", "some"]), "staves": rng.choice([1, 1, 2]),
             # segments already registered with add_segments (then the path search works on the part's own Segment objects)
-            "segments": rng.random() < 0.2}
+            "segments": rng.random() < 0.3}
     nvoices = rng.choice([1, 1, 2, 3])
     sym_mode = rng.choice(["all", "none", "some", "some"])
     nid = 0
@@ -421,6 +423,33 @@ def gen_part_spec(rng, pid="P0", rich=True, n_meas=None):
         for _ in range(rng.choice([0, 0, 1])):
             i, j = sorted(rng.sample(real, 2))
             spec["tuplets"].append([i, j, 3, 2])
+        # link clusters: several slurs / tuplets that stop (or start) at the SAME note, created in an order that
+        # differs from the order of their MusicXML numbers (numbers are handed out as the ranges open), so that an
+        # exporter that sorts / renumbers the note's own link lists in place is seen
+        if len(real) >= 3 and rng.random() < 0.4:
+            byt = sorted(real, key=lambda i: (spec["notes"][i]["t"], i))
+            k = rng.choice([2, 2, 3])
+            if len(byt) >= k + 1:
+                common = rng.randrange(k, len(byt)) if rng.random() < 0.6 else rng.randrange(0, len(byt) - k)
+                stop_side = common >= k and (rng.random() < 0.7 or common > len(byt) - k - 1)
+                if stop_side:
+                    others = sorted(rng.sample(range(0, common), k))
+                    pairs = [[byt[o], byt[common]] for o in others]
+                else:
+                    others = sorted(rng.sample(range(common + 1, len(byt)), k))
+                    pairs = [[byt[common], byt[o]] for o in others]
+                order = rng.choice(["reversed", "reversed", "shuffled", "asis"])
+                if order == "reversed":
+                    pairs.reverse()
+                elif order == "shuffled":
+                    rng.shuffle(pairs)
+                which = rng.choice(["slurs", "slurs", "tuplets", "both"])
+                for a, b in pairs:
+                    if which in ("slurs", "both"):
+                        spec["slurs"].append([a, b])
+                    if which in ("tuplets", "both"):
+                        spec["tuplets"].append([a, b, 3, 2])
+                spec["link_cluster"] = [which, "stop" if stop_side else "start", order, k]
     if rich:
         if rng.random() < 0.6:
             spec["keysig"] = [rng.randint(-5, 5), rng.choice(["major", "minor", None])]
@@ -523,28 +552,54 @@ def build_part(spec):
     return p
 
 
+# argument KINDS: every shape the signatures / docstrings of the entry points accept
+SCORE_KINDS = ["Score", "Part", "PartGroup", "PartList", "GroupList", "ScoreNoteArray"]
+PERF_KINDS = ["Performance", "PerformedPart", "PPartList", "PerfNoteArray"]
+ALIGN_KINDS = ["AlignPart", "AlignScore", "AlignLists", "AlignGroup"]
+ALL_KINDS = SCORE_KINDS + PERF_KINDS + ALIGN_KINDS
+_OLD_AS = {"score": "Score", "part": "Part", "list": "PartList", "performance": "Performance", "ppart": "PerformedPart"}
+NA_FLAGS = ["include_pitch_spelling", "include_key_signature", "include_time_signature", "include_metrical_position",
+            "include_grace_notes", "include_staff", "include_divs_per_quarter"]
+
+
 def gen_score_spec(rng):
     npart = rng.choice([1, 1, 2, 2, 3])
     n_meas = rng.randint(2, 5)
     parts = [gen_part_spec(rng, "P%d" % i, n_meas=n_meas) for i in range(npart)]
     return {"parts": parts, "group": npart >= 2 and rng.random() < 0.5, "title": rng.choice([None, "T"]),
-            "as": rng.choice(["score", "score", "score", "part", "list"])}
+            "as": rng.choice(SCORE_KINDS), "nested_group": rng.random() < 0.3,
+            "na_flags": sorted(k for k in NA_FLAGS if rng.random() < 0.3)}
 
 
 def build_score(spec):
+    """-> (Score, part_structure list, outermost PartGroup or None)"""
     import partitura.score as S
 
     parts = [build_part(ps) for ps in spec["parts"]]
-    if spec.get("group") and len(parts) >= 2:
+    how = _OLD_AS.get(spec.get("as"), spec.get("as", "Score"))
+    want_group = (spec.get("group") and len(parts) >= 2) or how in ("PartGroup", "GroupList")
+    g = None
+    if want_group:
+        inside = parts if how == "PartGroup" else parts[:2]
         g = S.PartGroup(group_symbol="bracket", group_name="G", number=1)
-        g.children = parts[:2]
-        for p in parts[:2]:
-            p.parent = g
-        structure = [g] + parts[2:]
+        if spec.get("nested_group") and len(inside) >= 2:
+            # a group inside the group (iter_parts recurses)
+            g2 = S.PartGroup(group_symbol="brace", group_name="H", number=2)
+            g2.children = [inside[0]]
+            inside[0].parent = g2
+            g2.parent = g
+            g.children = [g2] + list(inside[1:])
+            for p in inside[1:]:
+                p.parent = g
+        else:
+            g.children = list(inside)
+            for p in inside:
+                p.parent = g
+        structure = [g] + [p for p in parts if all(p is not q for q in inside)]
     else:
         structure = parts
     sc = S.Score(structure, id="sc", title=spec.get("title"), composer="anon")
-    return sc
+    return sc, structure, g
 
 
 def gen_ppart_spec(rng, pid="PP0"):
@@ -561,6 +616,12 @@ def gen_ppart_spec(rng, pid="PP0"):
             nd["track"] = rng.choice([0, 1])
             nd["channel"] = rng.choice([0, 1, 9])
         notes.append(nd)
+    # performed notes are usually stored by onset; 30% are not (a view that sorts `notes` in place must be seen)
+    order = rng.choice(["onset", "onset", "shuffled", "reversed"]) if len(notes) > 1 else "onset"
+    if order == "shuffled":
+        rng.shuffle(notes)
+    elif order == "reversed":
+        notes.reverse()
     controls = []
     for _ in range(rng.choice([0, 0, 2, 5])):
         c = {"time": rng.choice([0.0, 0.25, 0.75, 1.5, 3.0]), "number": rng.choice([64, 64, 67, 7]), "value": rng.choice([0, 20, 64, 100, 127])}
@@ -571,7 +632,20 @@ def gen_ppart_spec(rng, pid="PP0"):
     programs = []
     if rng.random() < 0.3:
         programs.append({"time": 0.0, "program": rng.randint(0, 20), "track": 0, "channel": 0})
-    return {"id": pid, "notes": notes, "controls": controls, "programs": programs,
+    # time / key signatures and other meta events as a client builds them by hand: without `time_tick`, mostly without `track`
+    tsigs, ksigs, meta = [], [], []
+    if rng.random() < 0.5:
+        tsigs.append({"time": 0.0, "beats": rng.choice([3, 4, 6]), "beat_type": rng.choice([4, 8])})
+        if rng.random() < 0.4:
+            tsigs.append({"time": rng.choice([0.5, 1.0, 2.0]), "beats": 2, "beat_type": 4, "track": 0})
+    if rng.random() < 0.4:
+        ksigs.append({"time": 0.0, "fifths": rng.randint(-4, 4), "mode": rng.choice(["major", "minor"])})
+    if rng.random() < 0.4:
+        meta.append({"time": 0.0, "type": "track_name", "name": "track"})
+        if rng.random() < 0.5:
+            meta.append({"time": rng.choice([0.25, 1.0]), "type": "marker", "text": "A", "track": 0})
+    return {"id": pid, "notes": notes, "controls": controls, "programs": programs, "note_order": order,
+            "time_signatures": tsigs, "key_signatures": ksigs, "meta_other": meta,
             "threshold": rng.choice([64, 64, 30, 127]), "ppq": rng.choice([480, 96]), "mpq": rng.choice([500000, 600000])}
 
 
@@ -580,12 +654,15 @@ def build_ppart(spec):
 
     return P.PerformedPart([dict(n) for n in spec["notes"]], id=spec["id"], part_name="perf",
                            controls=[dict(c) for c in spec["controls"]], programs=[dict(c) for c in spec["programs"]],
+                           key_signatures=[dict(c) for c in spec.get("key_signatures", [])],
+                           time_signatures=[dict(c) for c in spec.get("time_signatures", [])],
+                           meta_other=[dict(c) for c in spec.get("meta_other", [])],
                            sustain_pedal_threshold=spec["threshold"], ppq=spec["ppq"], mpq=spec["mpq"])
 
 
 def gen_perf_spec(rng):
     n = rng.choice([1, 1, 2, 3])
-    return {"pparts": [gen_ppart_spec(rng, "PP%d" % i) for i in range(n)], "as": rng.choice(["performance", "performance", "ppart", "list"]),
+    return {"pparts": [gen_ppart_spec(rng, "PP%d" % i) for i in range(n)], "as": rng.choice(PERF_KINDS),
             "unique_tracks": rng.random() < 0.3}
 
 
@@ -604,7 +681,8 @@ def gen_alignment_spec(rng):
     for n in ps["notes"]:
         n["id"] = "n%d" % k
         k += 1
-    return {"part": ps, "bpm": rng.choice([60, 100, 120]), "drop": rng.random(), "seed": rng.randrange(1 << 30)}
+    return {"part": ps, "bpm": rng.choice([60, 100, 120]), "drop": rng.random(), "seed": rng.randrange(1 << 30),
+            "as": rng.choice(ALIGN_KINDS)}
 
 
 def build_alignment(spec):
@@ -632,17 +710,47 @@ def build_alignment(spec):
             al.append({"label": "deletion", "score_id": sid})
             if sid in pids:
                 al.append({"label": "insertion", "performance_id": sid})
+    how = spec.get("as", "AlignPart")
+    if how == "AlignScore":
+        import partitura.performance as P
+
+        return al, P.Performance([ppart], id="perf"), S.Score([part], id="sc")
+    if how == "AlignLists":
+        return al, [ppart], [part]
+    if how == "AlignGroup":
+        g = S.PartGroup(group_symbol="bracket", group_name="G", number=1)
+        g.children = [part]
+        part.parent = g
+        return al, ppart, g
     return al, ppart, part
 
 
 # ---------------------------------------------------------------------------------------
 # 4. Read-only entry points.  Each takes the argument tuple and a parameter dict (JSON-able,
-# part of the replay) and returns the raw result.  kind: which argument shapes it accepts.
+# part of the replay) and returns the raw result.  Every entry point is given the argument
+# AS IT IS (no unwrapping by the harness) for every argument kind its signature / docstring
+# accepts, plus the neighbouring kinds of the same family (where it then raises: recorded,
+# and the argument must still be unchanged).  Only the entry points that are METHODS of Part
+# (maps, pretty, views ...) are applied to every part reachable from the argument.
 
 MAPS = ["beat_map", "inv_beat_map", "quarter_map", "inv_quarter_map", "quarter_duration_map", "time_signature_map",
         "key_signature_map", "measure_map", "measure_number_map", "metrical_position_map", "clef_map"]
 VIEWS = ["notes", "notes_tied", "measures", "rests", "repeats", "key_sigs", "time_sigs", "dynamics", "articulations",
          "first_point", "last_point", "number_of_staves", "measure_number_map", "quarter_durations", "note_array_default"]
+
+
+class ProtocolError(Exception):
+    """raised by ep_iterate when len / indexing / iteration of the argument disagree with each other"""
+
+
+def family(kind):
+    if kind in ("ScoreNoteArray", "PerfNoteArray"):
+        return "na"
+    if kind in SCORE_KINDS:
+        return "score"
+    if kind in PERF_KINDS:
+        return "perf"
+    return "align"
 
 
 def _parts_of(x):
@@ -653,6 +761,12 @@ def _parts_of(x):
     if isinstance(x, S.Score):
         return list(x.parts)
     return list(S.iter_parts(x))
+
+
+def _pparts_of(x):
+    import partitura.performance as P
+
+    return [x] if isinstance(x, P.PerformedPart) else list(x.performedparts) if isinstance(x, P.Performance) else list(x)
 
 
 def _times_of(part):
@@ -681,28 +795,36 @@ def ep_save_score_midi(args, prm):
 
 
 def ep_note_array(args, prm):
-    import partitura.score as S
+    """the note_array method where the argument has one, note_array_from_part_list otherwise"""
     from partitura.utils.music import note_array_from_part_list
 
     x = args[0]
     kw = dict(prm.get("flags", {}))
-    if isinstance(x, (S.Part, S.Score)):
-        return x.note_array(**kw)
-    return note_array_from_part_list(x, **kw)
+    # the plain call (what most clients write) and the call with the drawn include_* flags
+    if hasattr(x, "note_array"):
+        return [x.note_array(), x.note_array(**kw)] if kw else x.note_array()
+    return [note_array_from_part_list(x), note_array_from_part_list(x, **kw)] if kw else note_array_from_part_list(x)
+
+
+def ep_note_array_from_part_list(args, prm):
+    from partitura.utils.music import note_array_from_part_list
+
+    return note_array_from_part_list(args[0], **dict(prm.get("flags", {})))
 
 
 def ep_rest_array(args, prm):
+    import inspect
+
     import partitura.score as S
     from partitura.utils.music import rest_array_from_part_list
 
-    import inspect
-
     x = args[0]
     kw = dict(prm.get("rflags", {}))
-    if isinstance(x, S.Part):
-        return x.rest_array(**kw)
+    if isinstance(x, (S.Part, S.PartGroup)):
+        return [x.rest_array(), x.rest_array(**kw)] if kw else x.rest_array()
     ok = set(inspect.signature(rest_array_from_part_list).parameters)
-    return rest_array_from_part_list(_parts_of(x), **{k: v for k, v in kw.items() if k in ok})
+    kw = {k: v for k, v in kw.items() if k in ok}
+    return [rest_array_from_part_list(x), rest_array_from_part_list(x, **kw)] if kw else rest_array_from_part_list(x)
 
 
 def ep_ensure_notearray(args, prm):
@@ -711,11 +833,35 @@ def ep_ensure_notearray(args, prm):
     return ensure_notearray(args[0])
 
 
+def ep_ensure_rest_array(args, prm):
+    from partitura.utils.music import ensure_rest_array
+
+    return ensure_rest_array(args[0])
+
+
 def ep_pianoroll(args, prm):
     from partitura.utils.music import compute_pianoroll
 
-    return compute_pianoroll(args[0], time_div=prm.get("time_div", "auto"), return_idxs=prm.get("return_idxs", False),
-                             onset_only=prm.get("onset_only", False), piano_range=prm.get("piano_range", False))
+    return [compute_pianoroll(args[0]),
+            compute_pianoroll(args[0], time_div=prm.get("time_div", "auto"), return_idxs=prm.get("return_idxs", False),
+                              onset_only=prm.get("onset_only", False), piano_range=prm.get("piano_range", False))]
+
+
+def ep_slice_notearray(args, prm):
+    """slice_notearray_by_time with clipping (the slice must be a copy: clipping writes into it)"""
+    from partitura.utils.music import get_time_units_from_note_array, slice_notearray_by_time
+
+    na = args[0]
+    out = []
+    on, du = get_time_units_from_note_array(na)
+    if len(na) == 0:
+        return [slice_notearray_by_time(na, 0, 1)]
+    lo, hi = float(np.min(na[on])), float(np.max(na[on] + na[du]))
+    a, b = prm.get("slice", [0.25, 0.75])
+    for s, e in ((lo + a * (hi - lo), lo + b * (hi - lo)), (lo, hi), (lo + (hi - lo) / 2, hi + 1)):
+        out.append(slice_notearray_by_time(na, s, e, clip_onset_duration=True))
+        out.append(slice_notearray_by_time(na, s, e, clip_onset_duration=False))
+    return out
 
 
 def ep_maps(args, prm):
@@ -732,7 +878,11 @@ def ep_maps(args, prm):
 
 
 def ep_pretty(args, prm):
-    return [p.pretty() for p in _parts_of(args[0])]
+    x = args[0]
+    out = [p.pretty() for p in _parts_of(x)]
+    if hasattr(x, "pretty") and not isinstance(x, list):
+        out.append(x.pretty())  # PartGroup.pretty
+    return out
 
 
 def ep_views(args, prm):
@@ -806,19 +956,33 @@ def ep_segments(args, prm):
 def ep_spelling(args, prm):
     from partitura.musicanalysis import estimate_spelling
 
-    return [estimate_spelling(p) for p in _parts_of(args[0])]
+    return estimate_spelling(args[0])
 
 
 def ep_voices(args, prm):
     from partitura.musicanalysis import estimate_voices
 
-    return [estimate_voices(p, monophonic_voices=prm.get("mono", True)) for p in _parts_of(args[0])]
+    return estimate_voices(args[0], monophonic_voices=prm.get("mono", True))
 
 
 def ep_key(args, prm):
     from partitura.musicanalysis import estimate_key
 
-    return [estimate_key(p) for p in _parts_of(args[0])]
+    return estimate_key(args[0])
+
+
+def ep_analyses_per_part(args, prm):
+    """the three analyses on every single part reachable from the argument"""
+    from partitura.musicanalysis import estimate_key, estimate_spelling, estimate_voices
+
+    out = []
+    for p in _parts_of(args[0]):
+        for f in (estimate_spelling, lambda q: estimate_voices(q, monophonic_voices=prm.get("mono", True)), estimate_key):
+            try:
+                out.append(f(p))
+            except Exception as e:
+                out.append(["raised", type(e).__name__])
+    return out
 
 
 def ep_transpose(args, prm):
@@ -830,14 +994,51 @@ def ep_transpose(args, prm):
 
 
 def ep_iterate(args, prm):
-    """the container protocol used as a client would: nested loops, list(), len, indexing."""
+    """the container protocol used as a client would: nested loops, zip, two live iterators, list(), len and
+    indexing before / after / during an iteration.  Returns the observed sequences (compared between calls);
+    raises ProtocolError when they are not the parts in order."""
     c = args[0]
-    if not hasattr(c, "__len__") or isinstance(c, list):
-        return None
     n = len(c)
     items = [c[i] for i in range(n)]
-    pairs = [(items.index(a), items.index(b)) for a in c for b in c]
-    return [n, [items.index(a) for a in c], pairs, [items.index(a) for a in reversed(c)] if n else []]
+
+    def ix(o):
+        for i, it in enumerate(items):
+            if it is o:
+                return i
+        return -1
+
+    # (objects appearing twice get the index of their first occurrence)
+    first = [ix(o) for o in items]
+    got = {
+        "list": [ix(a) for a in c],
+        "nested": [(ix(a), ix(b)) for a in c for b in c],
+        "zip": [(ix(a), ix(b)) for a, b in zip(c, c)],
+        "reversed": [ix(a) for a in reversed(c)] if n else [],
+        "neg_index": [ix(c[i]) for i in range(-n, 0)],
+    }
+    it1, it2 = iter(c), iter(c)
+    two = []
+    for _ in range(n + 1):
+        for it in (it1, it2):
+            try:
+                two.append(ix(next(it)))
+            except StopIteration:
+                two.append(-2)
+    got["two_iterators"] = two
+    it3 = iter(c)
+    head = next(it3, None)
+    got["during"] = [len(c), [ix(c[i]) for i in range(n)], ix(head) if n else -2, [ix(a) for a in it3], len(c)]
+    got["distinct_iterators"] = it1 is not it2
+    exp = {
+        "list": first, "nested": [(a, b) for a in first for b in first], "zip": [(a, a) for a in first],
+        "reversed": first[::-1], "neg_index": first,
+        "two_iterators": [x for a in first for x in (a, a)] + [-2, -2],
+        "during": [n, first, first[0] if n else -2, first[1:], n], "distinct_iterators": True,
+    }
+    bad = [k for k in exp if got[k] != exp[k]]
+    if bad:
+        raise ProtocolError("%s: got %s expected %s" % (bad[0], got[bad[0]], exp[bad[0]]))
+    return [n, got]
 
 
 def ep_save_performance_midi(args, prm):
@@ -849,15 +1050,6 @@ def ep_save_performance_midi(args, prm):
     return buf.getvalue()
 
 
-def ep_perf_note_array(args, prm):
-    from partitura.utils.music import note_array_from_part_list
-
-    x = args[0]
-    if isinstance(x, list):
-        return note_array_from_part_list(x)
-    return x.note_array()
-
-
 def ep_perf_views(args, prm):
     import partitura.performance as P
 
@@ -865,9 +1057,9 @@ def ep_perf_views(args, prm):
     out = []
     if isinstance(x, P.Performance):
         out.append(["num_tracks", x.num_tracks])
-    pps = [x] if isinstance(x, P.PerformedPart) else list(x.performedparts) if isinstance(x, P.Performance) else list(x)
-    for pp in pps:
-        out.append([pp.sustain_pedal_threshold, pp.num_tracks if hasattr(pp, "num_tracks") else None, str(pp.notes[0]) if pp.notes else None])
+    for pp in _pparts_of(x):
+        out.append([pp.sustain_pedal_threshold, pp.num_tracks if hasattr(pp, "num_tracks") else None, str(pp.notes[0]) if pp.notes else None,
+                    pp.note_array()])
     return out
 
 
@@ -898,55 +1090,57 @@ def ep_unfold_alignment(args, prm):
     return S.unfold_part_alignment(part, al)
 
 
+_SK = ("Score", "Part", "PartGroup", "PartList", "GroupList")
+_PK = ("Performance", "PerformedPart", "PPartList")
+_NA = ("ScoreNoteArray", "PerfNoteArray")
+_AK = tuple(ALIGN_KINDS)
+
 ENTRY = {
-    # name: (function, kinds)
-    "save_musicxml": (ep_save_musicxml, ("score",)),
-    "save_score_midi": (ep_save_score_midi, ("score",)),
-    "note_array": (ep_note_array, ("score",)),
-    "rest_array": (ep_rest_array, ("score",)),
-    "ensure_notearray": (ep_ensure_notearray, ("score1",)),
-    "compute_pianoroll": (ep_pianoroll, ("score", "perf")),
-    "maps": (ep_maps, ("score",)),
-    "pretty": (ep_pretty, ("score",)),
-    "views": (ep_views, ("score",)),
-    "unfold_part_maximal": (ep_unfold_max, ("score1",)),
-    "unfold_part_minimal": (ep_unfold_min, ("score1",)),
-    "iter_unfolded_parts": (ep_iter_unfolded, ("score",)),
-    "get_paths": (ep_paths, ("score",)),
-    "segments": (ep_segments, ("score",)),
-    "estimate_spelling": (ep_spelling, ("score",)),
-    "estimate_voices": (ep_voices, ("score",)),
-    "estimate_key": (ep_key, ("score",)),
-    "transpose": (ep_transpose, ("score1",)),
-    "iterate": (ep_iterate, ("score", "perf")),
-    "save_performance_midi": (ep_save_performance_midi, ("perf",)),
-    "perf_note_array": (ep_perf_note_array, ("perf",)),
-    "perf_views": (ep_perf_views, ("perf",)),
-    "matchfile_from_alignment": (ep_matchfile, ("align",)),
-    "save_match": (ep_save_match, ("align",)),
-    "unfold_part_alignment": (ep_unfold_alignment, ("align",)),
+    # name: (function, argument kinds it is run on)
+    "save_musicxml": (ep_save_musicxml, _SK),
+    "save_score_midi": (ep_save_score_midi, _SK),
+    "note_array": (ep_note_array, _SK + _PK),
+    "note_array_from_part_list": (ep_note_array_from_part_list, ("Score", "PartGroup", "PartList", "GroupList", "PPartList", "Performance")),
+    "rest_array": (ep_rest_array, _SK),
+    "ensure_notearray": (ep_ensure_notearray, _SK + _PK + _NA),
+    "ensure_rest_array": (ep_ensure_rest_array, _SK),
+    "compute_pianoroll": (ep_pianoroll, _SK + _PK + _NA),
+    "slice_notearray_by_time": (ep_slice_notearray, _NA),
+    "maps": (ep_maps, _SK),
+    "pretty": (ep_pretty, _SK),
+    "views": (ep_views, _SK),
+    "unfold_part_maximal": (ep_unfold_max, _SK),
+    "unfold_part_minimal": (ep_unfold_min, _SK),
+    "iter_unfolded_parts": (ep_iter_unfolded, _SK),
+    "get_paths": (ep_paths, _SK),
+    "segments": (ep_segments, _SK),
+    "estimate_spelling": (ep_spelling, _SK + _PK + _NA),
+    "estimate_voices": (ep_voices, _SK + _PK + _NA),
+    "estimate_key": (ep_key, _SK + _PK + _NA),
+    "analyses_per_part": (ep_analyses_per_part, ("Score", "PartGroup", "PartList", "GroupList")),
+    "transpose": (ep_transpose, _SK),
+    "iterate": (ep_iterate, ("Score", "Performance")),
+    "save_performance_midi": (ep_save_performance_midi, _PK),
+    "perf_views": (ep_perf_views, _PK),
+    "matchfile_from_alignment": (ep_matchfile, _AK),
+    "save_match": (ep_save_match, _AK),
+    "unfold_part_alignment": (ep_unfold_alignment, _AK),
 }
 
 
-def entries_for(kind, arg):
-    import partitura.score as S
-
-    out = []
-    for name, (f, kinds) in ENTRY.items():
-        if kind in kinds:
-            out.append(name)
-        elif kind == "score" and "score1" in kinds and isinstance(arg, (S.Part, S.Score)):
-            out.append(name)
-    return out
+def entries_for(kind, arg=None):
+    return [name for name, (f, kinds) in ENTRY.items() if kind in kinds]
 
 
 def call_entry(name, args, prm):
-    """-> ('ok', canonical result) | ('raised', exception type name)."""
+    """-> ('ok', canonical result) | ('raised', exception type name) | ('protocol', message)."""
     f = ENTRY[name][0]
     try:
         r = f(args, prm)
     except RecursionError:
         return ("raised", "RecursionError")
+    except ProtocolError as e:
+        return ("protocol", str(e))
     except Exception as e:
         # only the exception TYPE is compared between calls (messages may contain addresses)
         return ("raised", type(e).__name__)
@@ -954,17 +1148,17 @@ def call_entry(name, args, prm):
 
 
 def gen_params(rng, work):
-    flags = {k: True for k in ["include_pitch_spelling", "include_key_signature", "include_time_signature", "include_metrical_position",
-                               "include_grace_notes", "include_staff", "include_divs_per_quarter"] if rng.random() < 0.4}
+    flags = {k: True for k in NA_FLAGS if rng.random() < 0.4}
     rflags = {k: True for k in ["include_pitch_spelling", "include_key_signature", "include_time_signature", "include_metrical_position",
                                 "include_grace_notes", "include_staff", "collapse"] if rng.random() < 0.3}
+    a = rng.choice([0.0, 0.1, 0.25, 0.5])
     return {"flags": flags, "rflags": rflags, "mode": rng.choice([0, 0, 1, 2, 3, 4, 5]), "anacrusis": rng.choice(["shift", "pad_bar", "time_sig_change"]),
             "time_div": rng.choice(["auto", 4, 8]), "return_idxs": rng.random() < 0.3, "onset_only": rng.random() < 0.2,
             "piano_range": rng.random() < 0.2, "update_ids": rng.random() < 0.7, "ignore_leaps": rng.random() < 0.7,
             "no_repeats": rng.random() < 0.2, "all_repeats": rng.random() < 0.3, "mono": rng.random() < 0.7,
-            "interval": rng.choice([[2, "M", "up"], [3, "m", "down"], [5, "P", "up"], [1, "A", "up"]]),
+            "interval": rng.choice([[2, "M", "up"], [3, "m", "down"], [5, "P", "up"], [1, "A", "up"], [3, "M", "up"], [2, "m", "down"]]),
             "mpq": rng.choice([500000, 400000]), "ppq": rng.choice([480, 96]), "merge": rng.random() < 0.3,
-            "assume_unfolded": rng.random() < 0.3, "_work": work}
+            "assume_unfolded": rng.random() < 0.3, "slice": [a, rng.choice([0.5, 0.75, 1.0])], "_work": work}
 
 
 # ---------------------------------------------------------------------------------------
@@ -973,44 +1167,67 @@ def gen_params(rng, work):
 
 
 def build_case(case):
-    """case = {'kind': 'score'|'perf'|'align'|'file', 'spec': ...} -> (kind, args tuple)."""
+    """case = {'kind': 'score'|'perf'|'align'|'file', 'spec': ...} -> (argument kind, args tuple)."""
     import partitura as pt
     import partitura.score as S
 
     k = case["kind"]
     if k == "score":
-        sc = build_score(case["spec"])
-        how = case["spec"].get("as", "score")
-        if how == "part":
-            return "score", (sc.parts[0],)
-        if how == "list":
-            return "score", (list(sc.parts),)
-        return "score", (sc,)
+        spec = case["spec"]
+        sc, structure, g = build_score(spec)
+        how = _OLD_AS.get(spec.get("as"), spec.get("as", "Score"))
+        if how == "Part":
+            return how, (sc.parts[spec.get("part_index", 0) % len(sc.parts)],)
+        if how == "PartList":
+            return how, (list(sc.parts),)
+        if how == "PartGroup":
+            return how, (g,)
+        if how == "GroupList":
+            return how, (list(structure),)
+        if how == "ScoreNoteArray":
+            return how, (sc.note_array(**{f: True for f in spec.get("na_flags", [])}),)
+        return "Score", (sc,)
     if k == "perf":
         pf = build_perf(case["spec"])
-        how = case["spec"].get("as", "performance")
-        if how == "ppart":
-            return "perf", (pf.performedparts[0],)
-        if how == "list":
-            return "perf", (list(pf.performedparts),)
-        return "perf", (pf,)
+        how = _OLD_AS.get(case["spec"].get("as"), case["spec"].get("as", "Performance"))
+        if how == "PerformedPart":
+            return how, (pf.performedparts[0],)
+        if how == "PPartList":
+            return how, (list(pf.performedparts),)
+        if how == "PerfNoteArray":
+            return how, (pf.note_array(),)
+        return "Performance", (pf,)
     if k == "align":
-        return "align", tuple(build_alignment(case["spec"]))
+        how = case["spec"].get("as", "AlignPart")
+        return how, tuple(build_alignment(case["spec"]))
     if k == "file":
         path = os.path.join(core.REPO, "tests", "data", case["path"])
+        how = case.get("as")
         if case["loader"] == "score":
-            return "score", (pt.load_score(path),)
+            sc = pt.load_score(path)
+            if how == "PartList":
+                return how, (list(sc.parts),)
+            if how == "GroupList":
+                return how, (list(sc.part_structure),)
+            if how == "Part":
+                return how, (sc.parts[0],)
+            return "Score", (sc,)
         if case["loader"] == "perf":
-            return "perf", (pt.load_performance(path),)
+            pf = pt.load_performance(path)
+            if how == "PPartList":
+                return how, (list(pf.performedparts),)
+            return "Performance", (pf,)
         if case["loader"] == "match":
             perf, al, sc = pt.load_match(path, create_score=True)
-            return "align", (al, perf[0], sc[0])
+            if how == "AlignScore":
+                return how, (al, perf, sc)
+            return "AlignPart", (al, perf[0], sc[0])
     raise ValueError(k)
 
 
 def run_case(case, schedule, prm, fresh_checks=()):
     """Run `schedule` (list of entry names) on the built case.
-    -> list of findings: dicts {type, entry, fields, detail}, plus trace rows for the Coq trace checker."""
+    -> list of findings: dicts {type, entry, kind, fields, detail}, trace rows for the Coq trace checker, results."""
     kind, args = build_case(case)
     findings = []
     trace = []
@@ -1024,14 +1241,17 @@ def run_case(case, schedule, prm, fresh_checks=()):
         fp = fingerprint(args)
         d = fp_digest(fp)
         rd = hashlib.sha1(json.dumps(res, sort_keys=True, default=str).encode()).hexdigest()
-        trace.append((name, d_prev, d, rd))
+        trace.append((name, kind, d_prev, d, rd, "ok" if res[0] == "ok" else "protocol" if res[0] == "protocol" else "raised:" + str(res[1])))
         if d != d_prev:
             paths, desc = describe_diff(fp_prev, fp)
-            findings.append({"type": "mutates", "entry": name, "step": step, "fields": sorted({field_of(p) for p in paths}),
+            findings.append({"type": "mutates", "entry": name, "arg_kind": kind, "step": step, "fields": sorted({field_of(p) for p in paths}),
                              "npaths": len(paths), "detail": desc, "outcome": res[0]})
             dirty = True
+        elif res[0] == "protocol":
+            if not any(f["type"] == "protocol" for f in findings):
+                findings.append({"type": "protocol", "entry": name, "arg_kind": kind, "step": step, "fields": [], "detail": [res[1][:400]], "outcome": "protocol"})
         elif name in results and results[name] != res and not dirty:
-            findings.append({"type": "not_repeatable", "entry": name, "step": step, "fields": [],
+            findings.append({"type": "not_repeatable", "entry": name, "arg_kind": kind, "step": step, "fields": [],
                              "detail": [json.dumps(results[name], default=str)[:300], json.dumps(res, default=str)[:300]], "outcome": res[0]})
         results.setdefault(name, res)
         fp_prev, d_prev = fp, d
@@ -1042,9 +1262,44 @@ def run_case(case, schedule, prm, fresh_checks=()):
         k2, args2 = build_case(case)
         res2 = call_entry(name, args2, prm)
         if res2 != results[name]:
-            findings.append({"type": "history_dependent", "entry": name, "step": -1, "fields": [],
+            findings.append({"type": "history_dependent", "entry": name, "arg_kind": kind, "step": -1, "fields": [],
                              "detail": [json.dumps(results[name], default=str)[:300], json.dumps(res2, default=str)[:300]], "outcome": res2[0]})
-    return findings, trace, results
+    return findings, trace, results, kind
+
+
+def observe_transpose(case, interval):
+    """transpose twice on a fresh build of the case -> what the heap model (Model.C20.copy_modify) talks about:
+    the cells of the argument (its notes, value = MIDI pitch) before / after, and the cells of the two results."""
+    import partitura.score as S
+    from partitura.utils.music import transpose
+
+    try:
+        kind, args = build_case(case)
+        arg = args[0]
+        notes0 = [n for p in _parts_of(arg) for n in p.notes]
+    except Exception:
+        return None
+    if not notes0:
+        return None
+    before = [int(n.midi_pitch) for n in notes0]
+    out = {"kind": kind, "before": before, "outcome": "ok", "res1": [], "res2": [], "shared": False}
+    res = []
+    for _ in range(2):
+        try:
+            r = transpose(arg, S.Interval(*interval))
+            res.append([n for p in _parts_of(r) for n in p.notes])
+        except Exception as e:
+            out["outcome"] = "raised:" + type(e).__name__
+            break
+    notes1 = [n for p in _parts_of(arg) for n in p.notes]
+    out["after"] = [int(n.midi_pitch) for n in notes1]
+    out["same_objects"] = len(notes0) == len(notes1) and all(a is b for a, b in zip(notes0, notes1))
+    if len(res) == 2:
+        out["res1"] = [int(n.midi_pitch) for n in res[0]]
+        out["res2"] = [int(n.midi_pitch) for n in res[1]]
+        ids = {id(n) for n in notes0}
+        out["shared"] = any(id(n) in ids for r in res for n in r)
+    return out
 
 
 # ---------------------------------------------------------------------------------------
@@ -1244,7 +1499,18 @@ def direct_writes(kind, args):
     import partitura.score as S
 
     W = []
-    if kind == "score":
+    kind = family(kind) if kind in ALL_KINDS else kind
+    if kind == "na":
+        na = args[0]
+
+        def w(name, cond, f):
+            W.append((name, (lambda: (f() or True) if cond else False)))
+
+        w("note array element", len(na) > 0, lambda: na["pitch"].__setitem__(0, int(na["pitch"][0]) % 127 + 1))
+        fld = [f for f in na.dtype.names if f.startswith("onset")][0]
+        w("note array onset", len(na) > 0, lambda: na[fld].__setitem__(len(na) - 1, na[fld][-1] + 1))
+        w("note array order", len(na) > 1 and na[0] != na[-1], lambda: na.__setitem__(slice(None), na[::-1].copy()))
+    elif kind == "score":
         x = args[0]
         parts = _parts_of(x)
         p = parts[0]
@@ -1297,13 +1563,21 @@ def direct_writes(kind, args):
         w("slur.end_note", slurs, lambda: setattr(slurs[0], "end_note", None))
         meas = list(p.iter_all(S.Measure))
         w("measure.number", meas, lambda: setattr(meas[0], "number", (meas[0].number or 0) + 100))
+        if isinstance(x, S.PartGroup):
+            w("partgroup.group_name", True, lambda: setattr(x, "group_name", "other"))
+            w("partgroup.children order", len(x.children) > 1, lambda: x.children.reverse())
+        if isinstance(x, list):
+            w("argument list order", len(x) > 1 and x[0] is not x[-1], lambda: x.reverse())
+            w("argument list length", len(x) > 0, lambda: x.pop())
+            pl = parts[-1]
+            w("last part of the list: part_name", True, lambda: setattr(pl, "part_name", "renamed"))
         if isinstance(x, S.Score):
             w("score.title", True, lambda: setattr(x, "title", "other"))
             w("score.iter_idx (new attribute)", True, lambda: setattr(x, "iter_idx", 0))
             w("score.parts order", len(x.parts) > 1 and x.parts[0] is not x.parts[-1], lambda: x.parts.reverse())
     elif kind == "perf":
         x = args[0]
-        pps = [x] if isinstance(x, P.PerformedPart) else list(x.performedparts) if isinstance(x, P.Performance) else list(x)
+        pps = _pparts_of(x)
         pp = pps[0]
 
         def w(name, cond, f):
@@ -1314,6 +1588,8 @@ def direct_writes(kind, args):
         w("control value", pp.controls, lambda: pp.controls[0].__setitem__("value", (pp.controls[0]["value"] + 1) % 128))
         w("controls order", len(pp.controls) > 1 and pp.controls[0] != pp.controls[-1], lambda: pp.controls.reverse())
         w("notes order", len(pp.notes) > 1, lambda: pp.notes.reverse())
+        w("time signature entry", pp.time_signatures, lambda: pp.time_signatures[0].__setitem__("time_tick", 3))
+        w("meta event entry", pp.meta_other, lambda: pp.meta_other[-1].__setitem__("track", 5))
         w("ppart.id", True, lambda: setattr(pp, "id", "other"))
         w("ppart._sustain_pedal_threshold", True, lambda: setattr(pp, "_sustain_pedal_threshold", pp._sustain_pedal_threshold + 1))
         if isinstance(x, P.Performance):
@@ -1321,6 +1597,9 @@ def direct_writes(kind, args):
             w("performance.title", True, lambda: setattr(x, "title", "other"))
     elif kind == "align":
         al, ppart, part = args
+        sp = _parts_of(part)[0]
+        sn = list(sp.iter_all(S.Note))
+        ppn = _pparts_of(ppart)[0]
 
         def w(name, cond, f):
             W.append((name, (lambda: (f() or True) if cond else False)))
@@ -1330,6 +1609,8 @@ def direct_writes(kind, args):
           lambda: [a for a in al if "score_id" in a][0].__setitem__("score_id", "q-1"))
         w("alignment length", al, lambda: al.pop())
         w("alignment element replaced by equal dict (identity)", al, lambda: al.__setitem__(0, dict(al[0])))
+        w("score note id (second argument)", sn, lambda: setattr(sn[0], "id", "zz"))
+        w("performed note velocity (third argument)", ppn.notes, lambda: ppn.notes[0].pnote_dict.__setitem__("velocity", ppn.notes[0]["velocity"] % 127 + 1))
     return W
 
 
@@ -1348,6 +1629,12 @@ FIXTURES = [
     {"kind": "file", "loader": "score", "path": "midi/test_basic_midi.mid"},
     {"kind": "file", "loader": "perf", "path": "midi/mozart_k265_var1.mid"},
     {"kind": "file", "loader": "match", "path": "match/mozart_k265_var1.match"},
+    # the same files given as other argument kinds
+    {"kind": "file", "loader": "score", "path": "musicxml/test_unfold_volta_numbers.xml", "as": "PartList"},
+    {"kind": "file", "loader": "score", "path": "musicxml/test_note_ties.xml", "as": "Part"},
+    {"kind": "file", "loader": "score", "path": "musicxml/test_part_group.xml", "as": "GroupList", "thorough": True},
+    {"kind": "file", "loader": "perf", "path": "midi/mozart_k265_var1.mid", "as": "PPartList", "thorough": True},
+    {"kind": "file", "loader": "match", "path": "match/mozart_k265_var1.match", "as": "AlignScore", "thorough": True},
 ]
 
 K1 = "C20-K1"
@@ -1392,7 +1679,7 @@ def _alignment_rename_only(before, after):
 
 def check_case(case, schedule, prm, fresh):
     """run_case + the extra shape information needed by the known-finding matcher."""
-    findings, trace, results = run_case(case, schedule, prm, fresh_checks=fresh)
+    findings, trace, results, akind = run_case(case, schedule, prm, fresh_checks=fresh)
     for f in findings:
         if f["type"] == "mutates" and f["entry"] == "unfold_part_alignment" and f["fields"] == ["arg0[]"]:
             # recompute on a fresh build to see exactly what was rewritten
@@ -1400,13 +1687,13 @@ def check_case(case, schedule, prm, fresh):
             before = [dict(a) for a in args[0]]
             call_entry("unfold_part_alignment", args, prm)
             f["alignment_rename_only"] = _alignment_rename_only(before, args[0])
-    return findings, trace, results
+    return findings, trace, results, akind
 
 
 def shrink_schedule(case, schedule, prm, finding):
     def fails(sub):
         try:
-            fs, _, _ = run_case(case, sub, prm)
+            fs = run_case(case, sub, prm)[0]
         except Exception:
             return False
         return any(f["type"] == finding["type"] and f["entry"] == finding["entry"] and f["fields"] == finding["fields"] for f in fs)
@@ -1428,15 +1715,22 @@ def run(ctx):
     import partitura.score as S
 
     quick = ctx.tier != "thorough"
-    ctx.rule = ("footprint cases: generated scores (1-3 parts, 2-6 measures, voices/chords/ties/slurs/tuplets/grace notes, notes with and "
+    ctx.rule = ("footprint cases: generated scores (1-3 parts, 2-6 measures, voices/chords/ties/slurs/tuplets/grace notes, 40% of parts with a "
+                "cluster of 2-3 slurs/tuplets stopping or starting at the same note created against their number order, notes with and "
                 "without symbolic durations/ids/staff, optional measures, 80% with navigation: repeat, volta 1/2, repeat+Fine+D.C., "
-                "segno/coda, two repeats), performances (1-3 performed parts, controls, programs), alignments (part + derived performance), "
-                "plus fixture files; each applicable read-only entry point is called once, twice in a row and in 1 (quick) / 3 (thorough) "
-                "seeded random orders with a deep fingerprint of all arguments before and after every call, and on a fresh build. "
-                "distinct non-trivial = distinct (argument spec, entry point) pairs whose call returned normally; plus distinct container "
-                "histories that contain at least two live iterators. history cases: random interleavings of iter/next/len/index over "
-                "real Score/Performance objects with 0-5 parts (incl. the same part twice) and all valid histories up to length 4 (quick) / 6 "
-                "(thorough) over {iter 0, iter 1, next 0, next 1, len, c[-1]} on a two-part Score and Performance.")
+                "segno/coda, two repeats; 30% of parts with add_segments called beforehand; part groups, also nested), performances (1-3 performed "
+                "parts, notes in onset order or not, controls, programs, hand-built time/key signatures and meta events), alignments (part + derived "
+                "performance), plus fixture files. The ARGUMENT KIND goes round robin per family: Score, Part, PartGroup, list of Parts, list with "
+                "PartGroups, score note array | Performance, PerformedPart, list of PerformedParts, performance note array | (alignment, "
+                "PerformedPart, Part), (alignment, Performance, Score), (alignment, [PerformedPart], [Part]), (alignment, PerformedPart, PartGroup). "
+                "Every read-only entry point is given the argument as it is for every kind of its family (where it raises, the argument must still "
+                "be unchanged and the same exception type raised again); it is called once, twice in a row and in 1 (quick) / 3 (thorough) seeded "
+                "random orders with a deep fingerprint of all arguments before and after every call, and on a fresh build; the footprint is "
+                "tabulated per (entry point, argument kind). distinct non-trivial = distinct (argument spec, entry point) pairs whose call returned "
+                "normally; plus distinct container histories that contain at least two live iterators. history cases: random interleavings of "
+                "iter/next/len/index over real Score/Performance objects with 0-5 parts (incl. the same part twice) and all valid histories up to "
+                "length 4 (quick) / 6 (thorough) over {iter 0, iter 1, next 0, next 1, len, c[-1]} on a two-part Score and Performance; client "
+                "iteration (nested, zip(c, c), two live iterators, len/index during an iteration) on every generated Score / Performance.")
     ctx.trusted = ["Coq 8.16.1 kernel incl. vm_compute", "harness/props/c20.py: the fingerprint (what it reads of the objects), the generators and "
                    "the canonical form of results", "CPython object identity (id) while the objects are alive",
                    "that an entry point's footprint on the sampled arguments is representative (the footprints are OBSERVED, not proved)"]
@@ -1447,7 +1741,7 @@ def run(ctx):
                        "parts of a container are not replaced while iterators are live (the model's part list is constant)"]
     ctx.matchers[K1] = _k1_matcher
 
-    ok, why = ctx.coq_props(expect_min=12)
+    ok, why = ctx.coq_props(expect_min=26)
     proof_ok = ok
     nviol0 = len(ctx.violations)
 
@@ -1563,21 +1857,32 @@ def run(ctx):
     ctx.log("container protocol: %d histories, %d disagreeing" % (len(hcases), len(hist_bad)))
 
     # ---- (b) footprints ----------------------------------------------------------------
-    n_cases = 45 if quick else 520
+    n_cases = 54 if quick else 520
     rounds = 1 if quick else 3
     cases = [{k: v for k, v in c.items() if k != "thorough"} for c in FIXTURES if not (quick and c.get("thorough"))]
-    # hand-written corner: repeat + Fine + D.C. (second get_paths used to differ), part given directly
-    for i in range(n_cases):
-        r = rng.random()
-        if r < 0.62:
-            cases.append({"kind": "score", "spec": gen_score_spec(rng)})
-        elif r < 0.8:
-            cases.append({"kind": "perf", "spec": gen_perf_spec(rng)})
-        else:
-            cases.append({"kind": "align", "spec": gen_alignment_spec(rng)})
+    # generated arguments: the argument KIND goes round robin inside each family (shuffled start), so that every
+    # kind is met in every run however small; the family mix is fixed (62% score side, 18% performance side, 20% alignments)
+    fam_n = {"score": round(n_cases * 0.62), "perf": round(n_cases * 0.18)}
+    fam_n["align"] = n_cases - fam_n["score"] - fam_n["perf"]
+    fam_list = [f for f, n in sorted(fam_n.items()) for _ in range(n)]
+    rng.shuffle(fam_list)
+    cyc = {}
+    for fam, kinds in (("score", SCORE_KINDS), ("perf", PERF_KINDS), ("align", ALIGN_KINDS)):
+        order = list(kinds)
+        rng.shuffle(order)
+        cyc[fam] = [order, 0]
+    for fam in fam_list:
+        order, i = cyc[fam]
+        cyc[fam][1] += 1
+        spec = {"score": gen_score_spec, "perf": gen_perf_spec, "align": gen_alignment_spec}[fam](rng)
+        spec["as"] = order[i % len(order)]
+        if fam == "score":
+            spec["part_index"] = rng.randrange(3)
+        cases.append({"kind": fam, "spec": spec})
     traces = []
     mut_entries = defaultdict(int)
     outcome = defaultdict(lambda: [0, 0])
+    by_ek = {}  # (entry, kind) -> {"calls", "ok", "raised": {type: n}, "written": set(fields), "args": n}
     n_calls = 0
     reported = set()
     for ci, case in enumerate(cases):
@@ -1587,54 +1892,96 @@ def run(ctx):
         except Exception as e:
             ctx.count("build_failed/" + type(e).__name__)
             continue
-        names = entries_for(kind, args[0])
+        names = entries_for(kind)
         sched = make_schedule(rng, names, 1 if case["kind"] == "file" else rounds)
         fresh = names if (not quick or ci % 3 == 0) else rng.sample(names, min(4, len(names)))
-        findings, trace, results = check_case(case, sched, prm, fresh)
+        findings, trace, results, kind = check_case(case, sched, prm, fresh)
+        del args
         n_calls += len(sched)
         ctx.evaluations += len(sched)
-        ctx.count("case/" + case["kind"] + ("/" + case["spec"].get("as", "") if case["kind"] in ("score", "perf") else ""))
+        ctx.count("argument/" + kind + ("/file" if case["kind"] == "file" else ""))
         if case["kind"] == "score":
             for ps in case["spec"]["parts"]:
                 nav = "+".join(sorted((["repeat"] if ps["repeats"] else []) + (["volta"] if ps["endings"] else []) + [k for k, _ in ps["nav"]])) or "none"
                 ctx.count("navigation/" + nav)
+                if ps.get("segments"):
+                    ctx.count("part/add_segments called beforehand")
+                if ps.get("link_cluster"):
+                    ctx.count("part/link cluster %s %s %s" % tuple(ps["link_cluster"][:3]))
+                if any(n["sym"] is None for n in ps["notes"]):
+                    ctx.count("part/has notes without symbolic duration")
         key = json.dumps(case, sort_keys=True, default=str)
         for n, v in results.items():
             outcome[n][0 if v[0] == "ok" else 1] += 1
             if v[0] == "ok":
                 ctx.nontrivial([key, n])
+        seen_here = set()
+        for n, k, b, a, r, oc in trace:
+            rec = by_ek.setdefault((n, k), {"calls": 0, "ok": 0, "raised": defaultdict(int), "written": set(), "args": 0})
+            rec["calls"] += 1
+            if oc == "ok":
+                rec["ok"] += 1
             else:
-                ctx.count("raised/%s/%s" % (n, v[1].split(":")[0]))
-        traces.append((dz(trace[0][1]) if trace else 0, [(n, dz(b), dz(a), dz(r)) for n, b, a, r in trace], ci))
-        if ci < 14 and ci >= 11:
-            ctx.sample({"case": case["kind"], "entries": names, "calls": len(sched), "findings": len(findings)})
+                rec["raised"][oc] += 1
+            if (n, k) not in seen_here:
+                seen_here.add((n, k))
+                rec["args"] += 1
         for f in findings:
-            mut_entries[(f["type"], f["entry"])] += 1
-            sig = (f["type"], f["entry"], tuple(f["fields"]))
+            if f["type"] == "mutates":
+                by_ek[(f["entry"], kind)]["written"].update(f["fields"])
+        traces.append((dz(trace[0][2]) if trace else 0, [(n, k, dz(b), dz(a), dz(r)) for n, k, b, a, r, oc in trace], ci))
+        if ci < 14 and ci >= 11:
+            ctx.sample({"case": case["kind"], "argument kind": kind, "entries": names, "calls": len(sched), "findings": len(findings),
+                        "spec": json.dumps(case.get("spec", case), default=str)[:700]})
+        for f in findings:
+            mut_entries[(f["type"], f["entry"], kind)] += 1
             obj = {"kind": "footprint", "case": case, "schedule": sched, "params": {k: v for k, v in prm.items() if k != "_work"}, "finding": f}
+            is_known = any(ctx.matchers.get(k["id"]) and ctx.matchers[k["id"]](obj) for k in ctx.known)
+            # one report per (finding type, entry point, argument kind); findings matched by a known finding are all
+            # passed on (they are counted), and never hide an unmatched finding of the same entry point
+            sig = (f["type"], f["entry"], kind, is_known)
             if sig in reported:
-                # same shape already reported/matched once: still run it through the matcher so that hits are counted
-                if any(ctx.matchers.get(k["id"]) and ctx.matchers[k["id"]](obj) for k in ctx.known):
+                if is_known:
                     ctx.violation("", obj)
                 continue
             reported.add(sig)
-            if not any(ctx.matchers.get(k["id"]) and ctx.matchers[k["id"]](obj) for k in ctx.known):
+            if not is_known:
+                if sum(1 for r in reported if not r[3]) > 8:
+                    continue
                 small = shrink_schedule(case, sched, {**prm}, f)
                 obj["schedule"] = small
-            what = {"mutates": "read-only entry point %s changed its argument: wrote %s (%s)",
-                    "not_repeatable": "entry point %s gave a different result when called again on the unchanged argument%s: %s",
-                    "history_dependent": "entry point %s gives a different result after other read-only calls than on a fresh argument%s: %s"}[f["type"]]
-            ctx.violation(what % (f["entry"], ", ".join(f["fields"][:6]) if f["type"] == "mutates" else "", "; ".join(map(str, f["detail"][:3]))[:600]), obj)
+            what = {"mutates": "read-only entry point %s given a %s changed its argument: wrote %s (%s)",
+                    "not_repeatable": "entry point %s given a %s gave a different result when called again on the unchanged argument%s: %s",
+                    "history_dependent": "entry point %s given a %s gives a different result after other read-only calls than on a fresh argument%s: %s",
+                    "protocol": "client iteration (%s) over a %s: len / indexing / nested, zipped or interleaved iteration are inconsistent%s: %s"}[f["type"]]
+            ctx.violation(what % (f["entry"], kind, ", ".join(f["fields"][:6]) if f["type"] == "mutates" else "", "; ".join(map(str, f["detail"][:3]))[:600]), obj)
     ctx.extra["entry_outcomes"] = {n: {"ok": v[0], "raised": v[1]} for n, v in sorted(outcome.items())}
     ctx.extra["never_succeeded"] = sorted(n for n, v in outcome.items() if v[0] == 0)
+    # the observed footprint per (entry point, argument kind)
+    table = {}
+    for (n, k), rec in sorted(by_ek.items()):
+        table.setdefault(n, {})[k] = {"arguments": rec["args"], "calls": rec["calls"], "returned": rec["ok"], "raised": dict(sorted(rec["raised"].items())),
+                                      "written": sorted(rec["written"])}
+    ctx.extra["footprint_by_entry_and_kind"] = table
+    planned = sorted((n, k) for n, (f, kinds) in ENTRY.items() for k in kinds)
+    missing = [p for p in planned if p not in by_ek]
+    nonempty = sorted("%s(%s): %s" % (n, k, sorted(rec["written"])[:4]) for (n, k), rec in by_ek.items() if rec["written"])
+    ctx.extra["entry_kind_pairs_never_returned"] = sorted("%s(%s)" % (n, k) for (n, k), rec in by_ek.items() if rec["ok"] == 0)
+    ctx.obligation("footprint per (entry point, argument kind): all %d planned pairs (%d entry points x the kinds Score, Part, PartGroup, list of Parts, "
+                   "list with PartGroups, score note array, Performance, PerformedPart, list of PerformedParts, performance note array, 4 alignment "
+                   "shapes) were exercised" % (len(planned), len(ENTRY)), not missing, missing[:8])
+    k1_pairs = {"unfold_part_alignment(%s)" % k for k in ALIGN_KINDS}
+    ctx.obligation("footprint per (entry point, argument kind): the observed write set is EMPTY for every pair (known finding %s excluded); "
+                   "%d pairs returned normally at least once, %d only raised (argument still unchanged)"
+                   % (K1, sum(1 for r in by_ek.values() if r["ok"]), sum(1 for r in by_ek.values() if not r["ok"])),
+                   all(x.split(":")[0] in k1_pairs for x in nonempty), nonempty[:8])
     nbad = sum(mut_entries.values())
     ctx.obligation("footprints: %d calls of %d read-only entry points on %d arguments left the deep fingerprint unchanged, repeated calls agreed, "
                    "results equal those on a fresh argument (known findings excluded: %s)" % (n_calls, len(outcome), len(cases), dict(ctx.known_hits)),
                    len(ctx.violations) == nviol0 or all(v[0].startswith("container") for v in ctx.violations[nviol0:]),
-                   dict(("%s/%s" % k, v) for k, v in mut_entries.items()))
+                   dict(("%s/%s/%s" % k, v) for k, v in mut_entries.items()))
     # the same traces through the Coq trace checker (effect model): K1 traces are expected to fail there
-    ids = {n: i for i, n in enumerate(sorted(ENTRY))}
-    tterms = [ctuple([cz(init), clist([ctuple([cz(ids[n]), cz(b), cz(a), cz(r)]) for n, b, a, r in rows])]) for init, rows, _ in traces]
+    tterms = [ctuple([cz(init), clist([ctuple(["(E_%s, K_%s)" % (n, k), cz(b), cz(a), cz(r)]) for n, k, b, a, r in rows])]) for init, rows, _ in traces]
     try:
         tfail = ctx.coq_failing("trace", "From PV Require Import Lib.Base Model.C20.", "", tterms, "trace_ok", shard=40)
         tdetail = ""
@@ -1643,16 +1990,81 @@ def run(ctx):
     py_bad = set()
     for ti, (init, rows, ci) in enumerate(traces):
         res_of = {}
-        for n, b, a, r in rows:
-            if b != init or a != init or res_of.setdefault(n, r) != r:
+        for n, k, b, a, r in rows:
+            if b != init or a != init or res_of.setdefault((n, k), r) != r:
                 py_bad.add(ti)
-    ctx.obligation("correspondence: %d observed call traces accepted by the Coq effect-model checker trace_ok exactly when the Python oracle accepts them "
-                   "(rejected: %d, all explained by reported/known findings)" % (len(tterms), len(py_bad)),
+    ctx.obligation("correspondence: %d observed call traces (rows: entry point, argument kind, store digest before/after, result digest) accepted by the Coq "
+                   "effect-model checker trace_ok exactly when the Python oracle accepts them (rejected: %d, all explained by reported/known findings)"
+                   % (len(tterms), len(py_bad)),
                    tfail != [-1] and set(tfail) == py_bad, tdetail or "coq %s python %s" % (tfail[:8], sorted(py_bad)[:8]))
     if tfail == [-1] or set(tfail) != py_bad:
         ctx.violation("Coq trace checker and Python oracle disagree on observed traces: %s vs %s %s" % (tfail[:8], sorted(py_bad)[:8], tdetail[:300]),
                       {"kind": "coq"}, no_input=True)
-    ctx.log("footprints: %d cases, %d calls, findings %s" % (len(cases), n_calls, dict(mut_entries)))
+    # the observed footprint table, one row per (entry point, argument kind), judged inside Coq (Model.C20.table_empty /
+    # table_covers; meaning: Props/C20.v empty_footprint_table_pure).  The known finding's pairs are left out.
+    rows = [((n, k), rec) for (n, k), rec in sorted(by_ek.items()) if "%s(%s)" % (n, k) not in k1_pairs]
+    fields_all = sorted({f for _, rec in rows for f in rec["written"]})
+    tab = clist([ctuple(["(E_%s, K_%s)" % nk, clist([cnat(fields_all.index(f)) for f in sorted(rec["written"])]) if rec["written"] else "(@nil nat)"]) for nk, rec in rows])
+    plan = clist(["(E_%s, K_%s)" % nk for nk in planned if "%s(%s)" % nk not in k1_pairs])
+    try:
+        tabfail = ctx.coq_failing("fptable", "From PV Require Import Lib.Base Model.C20.",
+                                  "Definition planned : list call := %s.\nDefinition table_check (t : fp_table) : bool := "
+                                  "table_empty t && forallb (table_covers t) planned." % plan, [tab], "table_check")
+        tabdetail = ""
+    except RuntimeError as e:
+        tabfail, tabdetail = [-1], str(e)[-800:]
+    ctx.obligation("correspondence: the observed footprint table (%d rows (entry point, argument kind) -> written locations) is empty and covers all "
+                   "planned pairs (Coq table_empty / table_covers)" % len(rows), not tabfail, tabdetail or nonempty[:6] or missing[:6])
+    if tabfail and len(ctx.violations) == nviol0:
+        ctx.violation("the observed footprint table is not empty / not complete: %s %s %s" % (nonempty[:4], missing[:4], tabdetail[:300]),
+                      {"kind": "coq", "nonempty": nonempty, "missing": ["%s(%s)" % m for m in missing]}, no_input=True)
+
+    # ---- (b2) deep copy before modification: transpose on every argument kind against the heap model ----
+    cow_terms = []
+    cow_cases = []
+    cow_bad = []
+    cow_stats = defaultdict(int)
+    score_cases = [c for c in cases if c["kind"] == "score" and c["spec"]["as"] != "ScoreNoteArray"]
+    for case in score_cases:
+        for interval in ([2, "M", "up"], [3, "m", "down"]) if not quick else (rng.choice([[2, "M", "up"], [3, "m", "down"], [5, "P", "up"]]),):
+            ob = observe_transpose(case, interval)
+            ctx.evaluations += 1
+            if ob is None:
+                cow_stats["skipped (no notes or build failed)"] += 1
+                continue
+            cow_stats["%s/%s" % (ob["kind"], ob["outcome"])] += 1
+            if ob["outcome"] != "ok":
+                ob["res1"], ob["res2"] = [], []
+            cow_terms.append(ctuple(["K_" + ob["kind"], clist([cz(x) for x in ob["before"]]), clist([cz(x) for x in ob["after"]]),
+                                     clist([cz(x) for x in ob["res1"]]), clist([cz(x) for x in ob["res2"]])]))
+            cow_cases.append((case, interval, ob))
+            if ob["shared"]:
+                cow_stats["result shares note objects with the argument"] += 1
+            if ob["outcome"] == "ok":
+                cow_stats["%s/result %s" % (ob["kind"], "transposed" if ob["res1"] != ob["before"] else "equal to the argument")] += 1
+            if ob["after"] != ob["before"] or ob["res1"] != ob["res2"] or not ob["same_objects"]:
+                cow_bad.append(len(cow_cases) - 1)
+    try:
+        cowfail = ctx.coq_failing("cow", "From PV Require Import Lib.Base Model.C20.", "", cow_terms, "cow_ok", shard=200)
+        cowdetail = ""
+    except RuntimeError as e:
+        cowfail, cowdetail = [-1], str(e)[-800:]
+    ctx.extra["transpose_copy_then_modify"] = dict(sorted(cow_stats.items()))
+    ctx.obligation("correspondence: transpose called twice on %d arguments of the kinds %s: the pitches of the argument's notes afterwards are those the "
+                   "copy-then-modify model leaves (Coq cow_ok: argument cells unchanged, both results equal)" % (len(cow_terms), sorted({o["kind"] for _, _, o in cow_cases})),
+                   not cowfail, cowdetail or cowfail[:5])
+    ctx.obligation("direct oracle: transpose twice leaves the same note objects with the same pitches in the argument and returns equal results (%d arguments)"
+                   % len(cow_cases), not cow_bad, cow_bad[:5])
+    for i in sorted(set(cow_bad) | {j for j in cowfail if j >= 0})[:1]:
+        case, interval, ob = cow_cases[i]
+        if not any("transpose" in v[0] for v in ctx.violations[nviol0:]):
+            ctx.violation("transpose(%s, %s) called twice: pitches of the argument's notes %s -> %s; results %s / %s%s"
+                          % (ob["kind"], interval, ob["before"][:8], ob["after"][:8], ob["res1"][:8], ob["res2"][:8],
+                             "" if ob["same_objects"] else " (the argument holds other note objects than before)"),
+                          {"kind": "transpose", "case": case, "interval": interval, "observed": {k: v for k, v in ob.items()}})
+    if cowfail == [-1]:
+        ctx.violation("Coq evaluation of the copy-then-modify model failed: " + cowdetail[:600], {"kind": "coq"}, no_input=True)
+    ctx.log("footprints: %d cases, %d calls, %d (entry, kind) pairs, findings %s; transpose/heap model: %d" % (len(cases), n_calls, len(by_ek), dict(mut_entries), len(cow_terms)))
 
     # ---- negative side + sensitivity of the observer -------------------------------------
     must, may = inplace_ops()
@@ -1740,11 +2152,19 @@ def replay(obj):
         prm = dict(r["params"])
         prm["_work"] = os.path.join(core.WORKROOT, "C20_replay")
         os.makedirs(prm["_work"], exist_ok=True)
-        findings, trace, results = check_case(r["case"], r["schedule"], prm, [r["finding"]["entry"]])
+        findings, trace, results, akind = check_case(r["case"], r["schedule"], prm, [r["finding"]["entry"]])
+        print("arg kind  :", akind)
         print("case      :", json.dumps(r["case"])[:600])
         print("schedule  :", r["schedule"])
         print("stored    :", json.dumps(r["finding"], default=str)[:800])
         print("now       :", json.dumps(findings, default=str)[:1600] if findings else "no finding (argument unchanged, results repeatable)")
+        return 0
+    if r.get("kind") == "transpose":
+        ob = observe_transpose(r["case"], r["interval"])
+        print("case      :", json.dumps(r["case"])[:600])
+        print("interval  :", r["interval"])
+        print("stored    :", json.dumps(r["observed"], default=str)[:800])
+        print("now       :", json.dumps(ob, default=str)[:800])
         return 0
     print(json.dumps(r, indent=1, default=str)[:3000])
     return 0
